@@ -141,16 +141,17 @@ Proof.
 Qed.
 
 Theorem nts_encode_wire hdr tail p nonce ct :
-  length hdr = 48%nat -> (tail = [] \/ length tail = 976%nat) ->
+  length hdr = 48%nat ->
   (32 <= length (ni_id p))%nat -> length nonce = 16%nat ->
   (nts_wire_len p ct <= 1024)%nat ->
   nts_encode hdr tail p nonce ct = Ok (nts_wire hdr p nonce ct).
 Proof.
-  intros Hh Ht Hid Hn Hfit. unfold nts_encode. rewrite Hh. cbn [Nat.eqb negb ntp_hdr_len].
+  intros Hh Hid Hn Hfit. unfold nts_encode. rewrite Hh. cbn [Nat.eqb negb ntp_hdr_len].
   change (48 =? 48)%nat with true. cbn [negb]. unfold ntp_hdr_len, max_packet_len.
-  set (tl := match tail with [] => repeat 0 (1024 - 48) | _ => tail end).
+  set (tl := if (length tail <? 1024 - 48)%nat then repeat 0 (1024 - 48) else firstn (1024 - 48) tail).
   assert (Htl : length tl = 976%nat).
-  { unfold tl. destruct Ht as [->|Ht]; [apply repeat_length|]. destruct tail; [discriminate|exact Ht]. }
+  { unfold tl. destruct (Nat.ltb_spec (length tail) (1024 - 48)) as [H|H]; [apply repeat_length|].
+    rewrite firstn_length. change (1024 - 48)%nat with 976%nat in *. lia. }
   replace (hdr ++ tl, 48%nat) with (stof hdr tl) by (unfold stof; rewrite Hh; reflexivity).
   unfold nts_wire_len in Hfit. unfold uid_pack.
   destruct (Nat.ltb_spec (length (ni_id p)) 32) as [H|_]; [lia|].
@@ -413,14 +414,14 @@ Qed.
 
 (* EncodePacket then DecodePacket *)
 Theorem nts_dec_enc hdr tail p nonce ct p0 :
-  length hdr = 48%nat -> (tail = [] \/ length tail = 976%nat) ->
+  length hdr = 48%nat ->
   (32 <= length (ni_id p))%nat -> length nonce = 16%nat -> (16 <= length ct)%nat ->
   (nts_wire_len p ct <= 1024)%nat ->
   exists e, nts_encode hdr tail p nonce ct = Ok e /\ e = nts_wire hdr p nonce ct /\
             (length e mod 4 = 0)%nat /\
             nts_decode p0 e = (nts_decoded p0 p nonce ct, d_ok).
 Proof.
-  intros Hh Ht Hid Hn Hc Hfit. exists (nts_wire hdr p nonce ct).
+  intros Hh Hid Hn Hc Hfit. exists (nts_wire hdr p nonce ct).
   split; [apply nts_encode_wire; auto|]. split; [reflexivity|]. split.
   - rewrite nts_wire_length by auto. unfold nts_wire_len.
     assert (Hf : forall ty l, (length (flat_map (ext_field ty) l) mod 4 = 0)%nat).
@@ -533,7 +534,7 @@ Proof.
   pose proof (nts_wire_length hdr p nonce ct Hh Hn) as Hlen.
   assert (Hf48 : firstn 48 (nts_wire hdr p nonce ct) = hdr) by (unfold nts_wire; apply firstn_app_exact; exact Hh).
   rewrite Hf48, zs_eqb_refl. cbn [andb].
-  destruct (nts_dec_enc hdr [] p nonce ct nts_pkt_empty Hh (or_introl eq_refl) Hid Hn Hc Hfit) as (e' & _ & -> & Hmod & _).
+  destruct (nts_dec_enc hdr [] p nonce ct nts_pkt_empty Hh Hid Hn Hc Hfit) as (e' & _ & -> & Hmod & _).
   assert (Hm4 : Z.of_nat (length (nts_wire hdr p nonce ct)) mod 4 =? 0 = true).
   { apply Z.eqb_eq. apply Nat.mod_divides in Hmod; [|lia]. destruct Hmod as [q ->]. rewrite Nat2Z.inj_mul. 
     rewrite Z.mul_comm. apply Z.mod_mul. lia. }
@@ -651,3 +652,55 @@ Proof.
     rewrite Forall_forall in *. intros x Hx. rewrite (Hall' x Hx). exact Hl.
 Qed.
 
+
+(* ---------- the edges of the domain, stated ---------- *)
+
+(* Authenticator.pack draws its nonce itself (16 bytes from rand.Read; Auth.Nonce of the caller is
+   overwritten), so 16 is the only nonce length this project's encoder produces.  The decoder is
+   NOT an inverse of the wire format for a nonce whose length is not a multiple of 4:
+   Authenticator.unpack advances by the nonce length, not by the padded length, and reads the
+   ciphertext from inside the nonce padding. *)
+Definition nonce17_hdr : list Z := repeat 0 48.
+Definition nonce17_in : nts_in := {| ni_id := repeat 7 32; ni_cookies := []; ni_placeholders := [] |}.
+Definition nonce17_nonce : list Z := repeat 1 17.
+Definition nonce17_ct : list Z := repeat 2 16.
+
+Lemma nts_nonce_padding_refuted :
+  length nonce17_nonce = 17%nat /\
+  let d := nts_decode nts_pkt_empty (nts_wire nonce17_hdr nonce17_in nonce17_nonce nonce17_ct) in
+  snd d = d_ok /\
+  np_auth (fst d) = (ext_authenticator, 44, nonce17_nonce, [0; 0; 0] ++ repeat 2 13) /\
+  np_auth (fst d) <> np_auth (nts_decoded nts_pkt_empty nonce17_in nonce17_nonce nonce17_ct).
+Proof. vm_compute. repeat split; try reflexivity. intros H. discriminate H. Qed.
+
+(* the walk of authenticate stops as soon as fewer than 28 bytes are left: a plaintext shorter
+   than 28 bytes yields nothing, whatever it contains *)
+Lemma walk_short fuel pt acc : (length pt < 28)%nat -> nts_auth_walk fuel pt 0 acc = (acc, d_ok).
+Proof.
+  intros H. destruct fuel; cbn [nts_auth_walk];
+    (destruct (Nat.leb_spec 28 (length pt - 0)) as [H'|_]; [lia|reflexivity]).
+Qed.
+
+(* so a response carrying one cookie shorter than 24 bytes is built, sealed and sent, and the
+   receiver drops the cookie without an error *)
+Lemma response_short_cookie_dropped c idlen acc :
+  (length c < 24)%nat -> (length c mod 4 = 0)%nat -> (1 <= max_cookies idlen (length c))%nat ->
+  exists plain, nts_response_plain [c] idlen = Ok plain /\ plain = ext_field ext_cookie c /\
+                nts_auth_walk (length plain) plain 0 acc = (acc, d_ok).
+Proof.
+  intros Hl Hm Hfit.
+  assert (Hp : pad4len (length c) = length c).
+  { unfold pad4len. apply Nat.mod_divides in Hm; [|lia]. destruct Hm as [q Hq]. rewrite Hq.
+    replace (4 * q + 3)%nat with (3 + q * 4)%nat by lia. rewrite Nat.div_add by lia. simpl. lia. }
+  exists (ext_field ext_cookie c). split.
+  - unfold nts_response_plain.
+    assert (Hcap : (if (1 <=? max_cookies idlen (length c))%nat && (max_cookies idlen (length c) <? length [c])%nat
+                    then firstn (max_cookies idlen (length c)) [c] else [c]) = [c]).
+    { destruct (Nat.ltb_spec (max_cookies idlen (length c)) (length [c])) as [H|H]; [simpl in H; lia|].
+      rewrite Bool.andb_false_r. reflexivity. }
+    rewrite Hcap. cbn [length Nat.mul]. rewrite Nat.add_0_r.
+    replace (repeat 0 (4 + length c), 0%nat) with (stof [] (repeat 0 (4 + length c))) by reflexivity.
+    cbn [pack_all]. rewrite field_pack_st by (rewrite repeat_length; lia). cbn [obind].
+    unfold stof. cbn [app]. rewrite skipn_all2 by (rewrite repeat_length; lia). rewrite app_nil_r. reflexivity.
+  - split; [reflexivity|]. apply walk_short. rewrite ext_field_length. lia.
+Qed.
